@@ -103,6 +103,8 @@ func Profile(name string) Knobs {
 	case "tight": // C01
 		k.Fill, k.PTerminating, k.PBinding = 0.7, 0.3, 0.15
 		k.PSmallPods = 0.4
+		k.PExtRes = 0.4
+		k.KindWeights = map[string]int{"cpu": 3, "besteffort": 1, "whole": 5, "fraction": 3, "gpumem": 2, "multifrac": 1, "mig": 1, "ext": 4}
 	case "fractions": // C02
 		k.NodesMax = 3
 		k.GPUChoices = []int{1, 2, 2, 4}
@@ -635,6 +637,9 @@ func (g *G) template() podTemplate {
 		t.ext = int64(g.in(1, 2))
 		if g.p(0.5) {
 			t.gpus = 1
+		} else if g.p(0.6) {
+			// nothing but the extended resource: no cpu / memory / GPU request at all
+			t.cpu, t.mem = 0, 0
 		}
 	}
 	if g.p(g.k.PInitContainers) {
